@@ -327,25 +327,38 @@ def eval_img(ctx, case):
     return True
 
 
+NON_TITLE_CLASSES = ["subtitle", "untitled", "title-row", "Entitled", "x admonition-titles", "titles", "notitle x"]
+
+
 def eval_adm(ctx, case):
     from docutils import nodes
 
     cls, name, title, paras, bare = case["classes"], case.get("name"), case.get("title"), case.get("paras", []), case.get("bare")
     esc = lambda v: v.replace("&", "&amp;").replace('"', "&quot;")  # noqa: E731
     attrs = f'class="{esc(cls)}"' + (f' name="{esc(name)}"' if name is not None else "")
+    # a first <p> whose class merely CONTAINS the letters 'title' is ordinary content: the admonition keeps the default title
+    ntitle = title is not None and case.get("title_class", "title") in NON_TITLE_CLASSES
+    if ntitle:
+        case = {**case, "title_tag": "p"}
+        paras = [title] + list(paras)
     inner = []
-    if title is not None:
+    if ntitle:
+        inner.append(f'<p class="{case["title_class"]}">{title}</p>')
+        paras_html = paras[1:]
+    else:
+        paras_html = paras
+    if title is not None and not ntitle:
         inner.append(f'<{case.get("title_tag", "p")} class="{case.get("title_class", "title")}">{title}</{case.get("title_tag", "p")}>')
-    for i, p in enumerate(paras):
+    for i, p in enumerate(paras_html):
         # the end tag of the last <p> may be omitted: </div> closes it
-        inner.append(f"<p>{p}" if case.get("unclosed") and i == len(paras) - 1 and not bare else f"<p>{p}</p>")
+        inner.append(f"<p>{p}" if case.get("unclosed") and i == len(paras_html) - 1 and not bare else f"<p>{p}</p>")
     if bare:
         inner.append(bare)
     dv = {"lower": "div", "upper": "DIV", "mixed": "Div"}[case.get("tagcase", "lower")]
     html_doc = f"<{dv} {attrs.replace('class=', 'CLASS=') if dv == 'DIV' else attrs}>\n" + "\n".join(inner) + f"\n</{dv}>\n"
     body = "\n\n".join(list(paras) + ([bare] if bare else []))
     opts = [("class", cls)] + ([("name", name)] if name is not None else [])
-    dlines = ["````{admonition} " + (title if title is not None else "Note"), "---"] + [f"{k}: {yaml_q(v)}" for k, v in sorted(opts)] + ["---", "", body, "````"]
+    dlines = ["````{admonition} " + (title if title is not None and not ntitle else "Note"), "---"] + [f"{k}: {yaml_q(v)}" for k, v in sorted(opts)] + ["---", "", body, "````"]
     dir_doc = "\n".join(dlines) + "\n"
     if case.get("twice") and name is None:
         # two admonitions back to back in ONE html block == two directives
@@ -540,7 +553,7 @@ def case_adm(R):
     bare = R.choice([None, None, "bare **text** &#42;x&#42;", "- item one\n- item two"]) if paras else R.choice(["bare **text**", "- item one\n- item two", "x &#95;y&#95;"])
     title = R.choice([None, "My *title*", "T &amp; U", "&#42;T&#42;", "plain"])
     return {"kind": "adm", "classes": R.choice(["admonition", "admonition note", "warning admonition x-y", "admonition  two  spaces"]), "name": R.choice([None, None, "adm-name", "Name With Caps", "n#1", 'q"uote']), "title": title,
-            "title_tag": R.choice(["p", "div"]), "title_class": R.choice(["title", "admonition-title", "title extra"]), "paras": paras, "bare": bare, "img": R.random() < 0.3, "tagcase": R.choice(["lower", "lower", "upper", "mixed"]), "unclosed": R.random() < 0.3, "twice": R.random() < 0.3}
+            "title_tag": R.choice(["p", "div"]), "title_class": R.choice(["title", "admonition-title", "title extra", "title", "extra admonition-title"] + NON_TITLE_CLASSES), "paras": paras, "bare": bare, "img": R.random() < 0.3, "tagcase": R.choice(["lower", "lower", "upper", "mixed"]), "unclosed": R.random() < 0.3, "twice": R.random() < 0.3}
 
 
 def gfm_cases():
